@@ -20,6 +20,7 @@ func init() {
 	vRegister("H15_vecmerge", H15_vecmerge)
 	vRegister("H16_history", H16_history)
 	vRegister("H19_faults", H19_faults)
+	vNativeResetHooks = append(vNativeResetHooks, faiss.VerifReset)
 }
 
 type vVecField struct {
@@ -104,6 +105,9 @@ func sCheckVecResult(pl segment.VecPostingsList, vecs []sVec, sim string, q []fl
 		vAssert(len(got) <= 32, tag+"runaway")
 	}
 	vAssert(int64(len(got)) <= k, tag+"at-most-k")
+	if k == 0 {
+		return
+	}
 	// every returned pair is a true score of an admissible document
 	for _, g := range got {
 		vAssert(admissible(g.doc), tag+"admissible")
